@@ -10,7 +10,7 @@
     Search (Radix/Machine.v): [find_in true] = findNode as it is, [find_in false]
     = with fixes/C02-F1.diff; [load] = any sequence of Add on the empty index. *)
 From HV Require Import Base.Prelude Radix.Spec Radix.SpecProofs Radix.Machine Radix.MachineProofs
-  Radix.Load Radix.LoadProofs C02.Model C02.Proofs.
+  Radix.Load Radix.LoadProofs Radix.Tree Radix.TreeProofs C02.Model C02.Proofs.
 
 (** ** the search returns what the specification says *)
 
@@ -30,6 +30,35 @@ Theorem C02_repaired_find_is_most_specific :
     find_in false (load can_add adds) path m = spec_lookup (load can_add adds) path m.
 Proof. exact loaded_repaired_find_is_spec. Qed.
 Print Assumptions C02_repaired_find_is_most_specific.
+
+(** ** stage 2: the compressed radix tree (Radix/Tree.v: findNode of tree.go with its
+    static/wildcard/catch-all children, transcribed) on ANY tree satisfying the shape
+    invariant [wfb] is the machine's search on the tree's content [abs] — so the
+    statements above hold of the compressed tree.  ([fx] = repair switch; captures
+    included.)  That Add preserves [wfb] and that [abs] of the tree built by a
+    sequence of Adds is the machine's index is checked on every generated case of the
+    correspondence runs, not proved. *)
+Theorem C02_tree_refines_machine :
+  forall (V : Type) (m : matcher V) (fx : bool) (t : tree V) (path : str),
+    wfb t = true ->
+    tree_find fx fx true m t path = find_in (negb fx) (abs t) path m.
+Proof. exact tree_find_refines. Qed.
+Print Assumptions C02_tree_refines_machine.
+
+(** findNode exactly as it is (C02-F1, C03-F2, C03-F5 all present), conditions that
+    do not look at captures, outside C02-F1: the value and key names of the specification *)
+Theorem C02_tree_find_is_most_specific :
+  forall (V : Type) (m : matcher V) (t : tree V) (path : str),
+    cond_only m -> wfb t = true -> guard_F1 (abs t) path m = false ->
+    found_strip V (tree_find false false false m t path) = found_strip V (spec_lookup (abs t) path m).
+Proof. exact tree_find_is_spec_guarded. Qed.
+Print Assumptions C02_tree_find_is_most_specific.
+
+Theorem C02_tree_repaired_find_is_most_specific :
+  forall (V : Type) (m : matcher V) (t : tree V) (path : str),
+    wfb t = true -> tree_find true true true m t path = spec_lookup (abs t) path m.
+Proof. exact tree_repaired_find_is_spec. Qed.
+Print Assumptions C02_tree_repaired_find_is_most_specific.
 
 (** finding C02-F1: the guard is needed and not vacuous *)
 Theorem C02_F1_refuted :
